@@ -502,10 +502,16 @@ def check_gates(res, facts, prop):
                 post = o.cells[cell]
                 ch = spec_changed(pre, post)
                 tgt = spec[state]
-                if tgt is None:
-                    res.ob('R-FSM', inst + '|ignored', not ch, 'gate event that must be ignored changes %s' % ch, where, key='R-FSM:%s:ignored' % inst)
-                    continue
                 pa1 = post.get('phase_accumulator')
+                if tgt is None:
+                    if prop == 'C02' or not ch:
+                        res.ob('R-FSM', inst + '|ignored', not ch, 'gate event that must be ignored changes %s' % ch, where, key='R-FSM:%s:ignored' % inst)
+                        continue
+                    # C01 / C03 do not say WHICH events are ignored (that is C02's table); a gate event that is acted upon must
+                    # start a proper new segment: from the level currently output, at phase 0, in the phase the event starts
+                    tgt = 'Attack' if meth == 'gate_on' else 'Release'
+                    res.ob('R-FSM', inst + '|state', state_name(post.get('state')) == tgt,
+                           'gate event changes %s but leaves the envelope in %s: neither ignored nor a new %s segment' % (ch, state_name(post.get('state')), tgt), where, key='R-FSM:%s:ignored' % inst)
                 if prop == 'C01':
                     res.ob('R-FSM', inst + '|state', state_name(post.get('state')) == tgt, 'state after %s in %s = %s, expected %s' % (meth, state, state_name(post.get('state')), tgt), where, key='R-FSM:%s:state' % inst)
                 if prop == 'C02':
@@ -513,7 +519,9 @@ def check_gates(res, facts, prop):
                     ok_acc = pa1.get('accumulator').term == ZERO and bool_of(o.ctx, pa1.get('rolled_over')) is False
                     res.ob('R-FSM', inst + '|restart', ok_acc, 'accumulator after the transition = %r, rolled_over = %r; expected 0 / false' % (pa1.get('accumulator'), pa1.get('rolled_over')), where, key='R-FSM:%s:restart' % inst)
                     allowed = {'state', latch, 'phase_accumulator.accumulator', 'phase_accumulator.last_accumulator', 'phase_accumulator.rolled_over'}
-                    res.ob('R-FSM', inst + '|writes', set(ch) <= allowed, 'unexpected writes: %s' % sorted(set(ch) - allowed), where, key='R-FSM:%s:writes' % inst)
+                    # (levels and latches are C01's / C03's business: C02 only judges the state, the phase counter and the times)
+                    extra = {c for c in set(ch) - allowed if not (c.startswith('value') or c.startswith('sustain_level'))}
+                    res.ob('R-FSM', inst + '|writes', not extra, 'unexpected writes: %s' % sorted(extra), where, key='R-FSM:%s:writes' % inst)
                 if prop in ('C03', 'C01'):
                     got = post.get(latch)
                     res.ob('R-LATCH', inst, isinstance(got, Num) and got.term == pre.get('value').term,
@@ -715,7 +723,9 @@ def check_tick(res, facts, prop):
     return n
 
 
-def check_set_input(res, facts):
+def check_set_input(res, facts, only_stored=False):
+    """only_stored (C20): judge only that the parameter field holds exactly the converted argument; what else the call
+    touches (accumulator, latches) is C02's / C01's / C03's statement"""
     dds = Dds(facts)
     total, index = pa_instantiation(facts, ADSR)
     where = where_of(facts, ADSR + '::set_input')
@@ -732,7 +742,7 @@ def check_set_input(res, facts):
         for o in sem_iter(outs):
             post = o.cells[cell]
             ch = spec_changed(pre, post)
-            ok = o.status == 'returned' and set(ch) <= {field + '.0'} and same(post.get(field), inner)
+            ok = o.status == 'returned' and (only_stored or set(ch) <= {field + '.0'}) and same(post.get(field), inner)
             res.ob('R-WRITESET', 'set_input(%s)' % vname, ok, 'changed %s; %s = %r' % (ch, field, post.get(field)), where)
 
 
@@ -1032,7 +1042,13 @@ def check_waves(res, facts, prop):
                 res.ob('R-WAVE', inst + '|range', lo >= -1 and hi <= 1, 'value in [%s,%s], must stay in [-1,1]' % (float(lo) if lo != -INF else lo, float(hi) if hi != INF else hi), where, key='R-WAVE:range:%s:%d' % (inst, n))
                 res.ob('R-PURE', inst + '|get is read-only', not changed_fields(pre, o.cells[cell]), 'get() changes %s' % changed_fields(pre, o.cells[cell]), where, key='R-PURE:get:' + inst)
                 if shape == 'UpSaw':
-                    res.ob('R-WAVE', inst, got == r.scale(2) - 1, 'UpSaw = %r; expected 2*phase - 1' % (got,), where, key='R-WAVE:' + inst)
+                    ok_saw = got == r.scale(2) - 1
+                    if not ok_saw and prop == 'C11':
+                        # C11 only OBSERVES the phase through the up-saw (its exactness is C10's statement): any reading within
+                        # a quarter of the 2^-22 cycle the statement allows for set_phase is good enough to observe it
+                        dl, dh = o.ctx.rng(got - (r.scale(2) - 1))
+                        ok_saw = dl >= -Fr(1, 1 << 23) and dh <= Fr(1, 1 << 23)
+                    res.ob('R-WAVE', inst, ok_saw, 'UpSaw = %r; expected 2*phase - 1' % (got,), where, key='R-WAVE:' + inst)
                 elif shape == 'DownSaw':
                     res.ob('R-WAVE', inst, got == -(r.scale(2) - 1), 'DownSaw = %r; expected -(2*phase - 1)' % (got,), where, key='R-WAVE:' + inst)
                 elif shape == 'Square':
